@@ -51,7 +51,7 @@ def cases(tier, seed):
             flow["height_agl"] = float(np.round(rng.uniform(4, 30), 2))
         if mode == "rotational":
             flow["omega"] = [float(x) for x in np.round(rng.uniform(-0.3, 0.3, 3), 4)]
-        out.append(dict(kind="laws", mode=mode, surfaces=surfs, flow=flow, a=float(10 ** rng.uniform(-2, 2)), b=float(10 ** rng.uniform(-2, 2)),
+        out.append(dict(kind="laws", mode=mode, surfaces=surfs, flow=flow, sref=(float(np.round(rng.uniform(5, 60), 2)) if k % 3 == 1 else None), a=float(10 ** rng.uniform(-2, 2)), b=float(10 ** rng.uniform(-2, 2)),
                         k=float(10 ** rng.uniform(-2, 2)), t=[float(x) for x in rng.normal(size=3) * 10 ** rng.uniform(0, 3)], _cost=6 * ns))
     n = 4 if tier == "quick" else 60
     for k in range(n):
@@ -70,8 +70,10 @@ def scaled_surfaces(surfs, k=1.0, t=(0, 0, 0)):
     return out
 
 
-def run(c, surfs, flow, units=None):
+def run(c, surfs, flow, units=None, sref_scale=1.0):
     case = dict(surfaces=surfs, flow=flow, compressible=(c["mode"] == "compressible"), rotational=(c["mode"] == "rotational"))
+    if c.get("sref") is not None:
+        case["S_ref_total"] = c["sref"] * sref_scale  # a user-specified reference area is a length squared
     if units:
         case["units"] = units
     prob = zoo.build_aero(case, geom=False)
@@ -104,7 +106,7 @@ def compare(o, fam, r1, r0, fscale, tags, rtol=1e-9):
 
 def run_laws(c, o):
     surfs, flow = c["surfaces"], c["flow"]
-    tags = [c["mode"], "nsurf=%d" % len(surfs)]
+    tags = [c["mode"], "nsurf=%d" % len(surfs)] + (["user_sref"] if c.get("sref") is not None else [])
     r0 = run(c, surfs, flow)
     fl = dict(zoo.FLOW_DEFAULT)
     fl.update(flow)
@@ -126,7 +128,7 @@ def run_laws(c, o):
         ch = np.ravel(r0["chords_" + n])
         cl = (-strip[:, 0] * np.sin(al) + strip[:, 2] * np.cos(al)) / w / (q * 0.5 * (ch[1:] + ch[:-1]))
         o.close("decomp/Cl", np.ravel(r0["Cl_" + n]), cl, rtol=1e-11, scale=np.abs(cl).max() + 1e-300, tags=tags)
-    Stot = sum(r0["S"].values())
+    Stot = sum(r0["S"].values()) if c.get("sref") is None else c["sref"]
     o.close("decomp/total_area_weighted", r0["coef"][:2], [sum(r0["scoef"][n][4] * r0["S"][n] for n in r0["S"]) / Stot, sum(r0["scoef"][n][5] * r0["S"][n] for n in r0["S"]) / Stot],
             rtol=1e-12, atol=1e-15, tags=tags)
     # ---- (a) density and speed (Mach number and Reynolds number are independent inputs of the model and stay fixed)
@@ -142,7 +144,7 @@ def run_laws(c, o):
         fk["height_agl"] = flow["height_agl"] * k
     if c["mode"] == "rotational":
         fk["omega"] = [w / k for w in flow["omega"]]
-    compare(o, "scale", run(c, scaled_surfaces(surfs, k), fk), r0, k * k, tags)
+    compare(o, "scale", run(c, scaled_surfaces(surfs, k), fk, sref_scale=k * k), r0, k * k, tags)
     # ---- (c) translation (x,z only when a symmetry plane exists; along the free stream when a ground plane exists)
     t = np.array(c["t"])
     if c["mode"] in ("sym", "ground"):
